@@ -121,6 +121,11 @@ impl SocketType {
     pub fn compatible(&self, other: SocketType) -> bool {
         let row_index = *self as usize;
         let col_index = other as usize;
+        // The matrix covers the 11 ZMTP socket types. STREAM (raw TCP, no ZMTP peer) has no
+        // row or column in it and is compatible with nothing.
+        if row_index >= 11 || col_index >= 11 {
+            return false;
+        }
         COMPATIBILITY_MATRIX[row_index * 11 + col_index] != 0
     }
 }
